@@ -22,6 +22,26 @@ NON_ELITIST = {
     "BrainStormOptimization", "ImprovedBrainStormOptimization", "HenryGasSolubilityOptimization",
 }
 
+# optimizers whose step is "every agent is replaced in place by the winner of a greedy comparison with its own candidate"
+# (refinement X.slotwise of spec/AlgoRel.tla; the source calls _greedy_select_agent and no surveyed run ever worsened a slot)
+GREEDY_EACH: set[str] = {
+    "AfricanVultureOptimization", "AquilaOptimization", "ArchimedeOptimization", "BatOptimization",
+    "BrainStormOptimization", "BrownBearOptimization", "CamelCaravanOptimization", "CatSwarmOptimization",
+    "CoatiOptimization", "DragonflyOptimization", "EgretSwarmOptimization", "ElectromagneticFieldOptimization",
+    "FlowerPollinationAlgorithmOptimization", "ForensicBasedInvestigationOptimization", "FoxOptimization",
+    "GainingSharingKnowledgeOptimization", "GerminalCenterOptimization", "GiantTrevallyOptimization",
+    "GoldenJackalOptimization", "GrasshopperOptimization", "GreyWolfOptimization",
+    "HenryGasSolubilityOptimization", "HungerGamesSearchOptimization", "ImprovedBrainStormOptimization",
+    "LeviFlightJayaSwarmOptimization", "MarinePredatorsOptimization", "MothFlameOptimization",
+    "MultiverseOptimization", "NuclearReactionOptimization", "OspreyOptimization",
+    "PathfinderAlgorithmOptimization", "PelicanOptimization", "QleSineCosineAlgorithmOptimization",
+    "RungeKuttaOptimization", "SalpSwarmOptimization", "SeagullOptimization", "ServalOptimization",
+    "SiberianTigerOptimization", "SineCosineAlgorithmOptimization", "SpottedHyenaOptimization",
+    "SuccessHistoryIntelligentOptimization", "SwarmHillClimbingOptimization", "TasmanianDevilOptimization",
+    "TunaSwarmOptimization", "VirusColonySearchOptimization", "WalrusOptimization", "WarStrategyOptimization",
+    "WhalesOptimization", "ZebraOptimization",
+}
+
 BOUND_REGIMES = ["unit", "asym", "tiny", "large", "zero_lb", "zero_ub", "negative", "mixed"]
 FAMILIES = ["sphere", "linear", "rastrigin", "absneg", "step"]
 ENCODINGS = ["cont", "contmulti", "multiobj", "disc", "discmulti", "bin", "mixed", "perm"]
